@@ -569,7 +569,12 @@ def check_append(case, st: Stats = None):
             os.environ["CLEMATIS_LOG_DIR"] = old_dir
         shutil.rmtree(tmpdir, ignore_errors=True)
     counts = [len(s) for s in steps_by_writer]
-    orders = [tuple(case["order"])] if case.get("order") is not None else _interleavings(counts)
+    given = case.get("order")
+    if given is not None and [list(given).count(w) for w in range(len(counts))] == counts and len(given) == sum(counts):
+        orders = [tuple(given)]
+    else:
+        # no stored interleaving, or it does not fit this implementation's event sequences: enumerate all
+        orders = _interleavings(counts)
     memo = {}
     suffix = "".join(":" + s for s in sorted(shapeinfo))
     for order in orders:
